@@ -653,6 +653,18 @@ func (g *gen) runModes(e *env, l laneSpec, c *Case) {
 	if c.Transport != "inproc" {
 		return
 	}
+	if c.Proto == "http" && c.Codec == "proto" && (c.Shape == "cs" || c.Shape == "bidi") && !c.EOFWithData {
+		// the same stream with padded (non-minimal, legal) length prefixes
+		widths := []int{-1, 5, 10}
+		if c.Proxied || strings.Contains(c.Class, "huge-limit") {
+			widths = []int{5}
+		}
+		for _, w := range widths {
+			cc := *c
+			cc.ID, cc.PrefixWidth = g.nextID(), w
+			g.run(e, &cc)
+		}
+	}
 	if c.Proto == "http" && c.Shape == "unary" && c.Codec != "httpbody" && c.Msg == "" && !c.Gzip && !c.EOFWithData {
 		// the same body on the route that also binds a field from the URL
 		cc := *c
